@@ -3,6 +3,7 @@
 package main
 
 import (
+	"net/http"
 	"context"
 	"crypto/sha256"
 	"encoding/base64"
@@ -755,6 +756,41 @@ func driveC14(t *testing.T, out *vEmitter) {
 			out.Violation("idp-fault/proxy-stuck", "after the faulted runs a normal login no longer succeeds", map[string]interface{}{"status": cb.Status})
 		}
 	}
+	// ---- bearer tokens of a second issuer (extra-jwt-issuers): the generic token-to-session loader ----
+	{
+		e := vNewEnv(t, vEnvCfg{oidc: true, extraJWT: true, mod: func(o *options.Options) {
+			o.Providers[0].OIDCConfig.InsecureSkipNonce = true
+		}})
+		faults := map[string]map[string]interface{}{"preferred-username-number": {"preferred_username": 7}, "preferred-username-list": {"preferred_username": []interface{}{"a"}},
+			"groups-string": {"groups": "solo"}, "email-list": {"email": []interface{}{"a@example.com"}}}
+		for k, v := range claimFaults {
+			faults[k] = v
+		}
+		serveBearer := func(tok string) *vResult {
+			rq, _ := vRawRequest(vBuildRaw("GET", "/api", "app.example.com", [][2]string{{"Authorization", "Bearer " + tok}}, ""))
+			return e.serve(rq)
+		}
+		ctl := serveBearer(vJWT(vKeyRSA, "RS256", vClaims2("user@example.com", map[string]interface{}{"groups": []interface{}{"g"}, "preferred_username": "p"})))
+		if !ctl.Hit() {
+			out.Violation("idp-fault/proxy-stuck", "a well-formed bearer token of the configured extra issuer is not accepted", map[string]interface{}{"status": ctl.Status})
+		}
+		for label, extra := range faults {
+			r := serveBearer(vJWT(vKeyRSA, "RS256", vClaims2("user@example.com", extra)))
+			out.Obs("idp-fault/bearer-extra-issuer", true, vL("idp_fault", vS("bearer-extra-issuer"), vS("claims"), vS(label), vI(int64(r.Status)), vBool(false), vBool(r.Hit())))
+			out.Stat("idp_fault_runs", 1)
+			if r.Panic != nil {
+				out.Violation("idp-fault/panic", fmt.Sprintf("request handling panicked on an identity-provider failure: %v", r.Panic),
+					map[string]interface{}{"flow": "bearer-extra-issuer", "position": "claims", "kind": label})
+			}
+			// a claim of the wrong JSON type: no session (absent / null claims are not type errors)
+			tolerated := label == "email-null" || label == "exp-absent" && false
+			if r.Hit() && !tolerated {
+				out.Violation("idp-fault/session-from-wrongly-typed-claim", "a session was created from a bearer token with a claim of the wrong JSON type",
+					map[string]interface{}{"claim": label, "flow": "bearer-extra-issuer"})
+			}
+		}
+	}
+	vC14GenericProvider(t, out)
 	// model correspondence for the three paths under provider-side faults (token absent / profile failing)
 	vC14ModelCases(t, out)
 }
@@ -793,4 +829,113 @@ func vC14ModelCases(t *testing.T, out *vEmitter) {
 		out.Case("paths/profile-failing", true, vL(vIdentSX(s1), vIdentSX(s2), vIdentSX(s3)),
 			vL("oidc_paths", c.sx(), vI(time.Now().Unix()), vSome(ts.sx()), vProfileSX(c, true), vL(vS("old-user"), vS("old@example.com"), vStrs([]string{"old"}), vS("oldp"))))
 	}
+}
+
+
+// vC14GenericProvider: a provider of the non-OIDC family (ProviderData.Redeem, a profile lookup for the e-mail
+// address, validateToken against a validation endpoint - here the DigitalOcean provider pointed at the in-memory
+// identity provider) under the same response kinds, plus connections reset in the middle of a body whose
+// status line and headers already arrived.
+func vC14GenericProvider(t *testing.T, out *vEmitter) {
+	e := vNewEnv(t, vEnvCfg{mod: func(o *options.Options) {
+		pr := &o.Providers[0]
+		pr.Type = "digitalocean"
+		pr.ID = "digitalocean=verif"
+		pr.ClientID = clientID
+		pr.ClientSecret = clientSecret
+		pr.LoginURL = vIssuer + "/do/authorize"
+		pr.RedeemURL = vIssuer + "/do/token"
+		pr.ProfileURL = vIssuer + "/do/account"
+		pr.ValidateURL = vIssuer + "/do/account"
+		o.Cookie.Refresh = time.Hour
+		o.EmailDomains = []string{"*"}
+	}})
+	type kind struct {
+		label string
+		f     func(ok string) (int, string, string, error)
+		good  bool // the endpoint answered 200 and the whole body arrived
+	}
+	kinds := []kind{
+		{"ok", func(ok string) (int, string, string, error) { return 200, "application/json", ok, nil }, true},
+		{"500", func(ok string) (int, string, string, error) { return 500, "text/plain", "boom", nil }, false},
+		{"503-json", func(ok string) (int, string, string, error) { return 503, "application/json", ok, nil }, false},
+		{"401", func(ok string) (int, string, string, error) { return 401, "application/json", `{"id":"unauthorized"}`, nil }, false},
+		{"404", func(ok string) (int, string, string, error) { return 404, "text/plain", "", nil }, false},
+		{"connection-reset", func(ok string) (int, string, string, error) { return 0, "", "", fmt.Errorf("read: connection reset by peer") }, false},
+		{"body-reset-at-0", func(ok string) (int, string, string, error) { return 200, "application/json", ok, vBodyFault{0} }, false},
+		{"body-reset-midway", func(ok string) (int, string, string, error) { return 200, "application/json", ok, vBodyFault{len(ok) / 2} }, false},
+		{"body-reset-before-last-bytes", func(ok string) (int, string, string, error) { return 200, "application/json", ok, vBodyFault{len(ok) - 2} }, false},
+	}
+	malformed := []kind{
+		{"empty-body", func(ok string) (int, string, string, error) { return 200, "application/json", "", nil }, true},
+		{"truncated-json", func(ok string) (int, string, string, error) { return 200, "application/json", ok[:len(ok)/2], nil }, true},
+		{"not-json", func(ok string) (int, string, string, error) { return 200, "text/html", "<html>maintenance</html>", nil }, true},
+		{"missing-field", func(ok string) (int, string, string, error) { return 200, "application/json", `{"unrelated":true}`, nil }, true},
+		{"wrong-type", func(ok string) (int, string, string, error) { return 200, "application/json", `{"access_token":{"a":1},"account":{"email":17}}`, nil }, true},
+	}
+	okAccount := `{"account":{"email":"user@example.com","uuid":"u-1","status":"active"}}`
+	tokenBodies := map[string]string{
+		"json": `{"access_token":"at-generic-0123456789","token_type":"bearer","scope":"read"}`,
+		"form": "access_token=at-generic-0123456789&token_type=bearer&scope=read",
+	}
+	record := func(flow, pos, k string, res *vResult, issued bool) {
+		out.Obs("idp-fault/"+flow, true, vL("idp_fault", vS(flow), vS(pos), vS(k), vI(int64(res.Status)), vBool(issued), vBool(res.Hit())))
+		out.Stat("idp_fault_runs", 1)
+		if res.Panic != nil {
+			out.Violation("idp-fault/panic", fmt.Sprintf("request handling panicked on an identity-provider failure: %v", res.Panic),
+				map[string]interface{}{"flow": flow, "position": pos, "kind": k})
+		}
+	}
+	setAccount := func(k kind) {
+		e.idp.onPath["/do/account"] = func(*http.Request) (int, string, string, error) { return k.f(okAccount) }
+	}
+	// ---- login: redemption, then the profile lookup ----
+	for enc, okTok := range tokenBodies {
+		for _, k := range append(append([]kind(nil), kinds...), malformed...) {
+			kk := k
+			body := okTok
+			e.idp.onPath["/do/token"] = func(*http.Request) (int, string, string, error) { return kk.f(body) }
+			setAccount(kinds[0])
+			b := e.newBrowser("https://app.example.com")
+			l := b.start("/")
+			cb := b.callback(l.State, "code")
+			issued := e.sessionCookieSet(cb)
+			record("generic-login", "token-"+enc, k.label, cb, issued)
+			// (a prefix of a form-encoded body is itself a well-formed form body: a complete response carrying one is not detectable)
+			undetectable := enc == "form" && k.label == "truncated-json"
+			if issued != (k.label == "ok") && !undetectable {
+				out.Violation("idp-fault/session-from-failed-redemption", "a session was created although the token endpoint failed or answered malformed data",
+					map[string]interface{}{"kind": k.label, "provider": "generic", "encoding": enc, "issued": issued})
+			}
+		}
+	}
+	e.idp.onPath["/do/token"] = func(*http.Request) (int, string, string, error) { return 200, "application/json", tokenBodies["json"], nil }
+	for _, k := range append(append([]kind(nil), kinds...), malformed...) {
+		setAccount(k)
+		b := e.newBrowser("https://app.example.com")
+		l := b.start("/")
+		cb := b.callback(l.State, "code")
+		issued := e.sessionCookieSet(cb)
+		record("generic-login", "profile", k.label, cb, issued)
+		if issued != (k.label == "ok") {
+			out.Violation("idp-fault/session-from-failed-profile-lookup", "a session was created although the profile lookup it depends on failed",
+				map[string]interface{}{"kind": k.label, "provider": "generic", "issued": issued})
+		}
+	}
+	// ---- validation of a session older than the refresh period (this provider cannot refresh) ----
+	for _, k := range append(append([]kind(nil), kinds...), malformed...) {
+		setAccount(k)
+		b := e.newBrowser("https://app.example.com")
+		s := b.seedSession("user@example.com", 2*time.Hour, 20)
+		s.RefreshToken = ""
+		vReseed(b, s)
+		r := b.get("/page")
+		record("generic-validate", "validate", k.label, r, false)
+		// the validation endpoint's verdict is its status: 200 with the whole body received
+		if r.Hit() != k.good {
+			out.Violation("idp-fault/session-extended-after-failed-validation", "a stale session was honoured although its validation at the identity provider failed (or refused although it succeeded)",
+				map[string]interface{}{"kind": k.label, "provider": "generic", "served": r.Hit(), "status": r.Status})
+		}
+	}
+	setAccount(kinds[0])
 }
